@@ -1011,14 +1011,20 @@ def vary_layout(eng, lines, window, points, seed):
                 cur += tk
         if (i, "eol", len(toks)) in chosen:
             n += 1
-            c = eng.choose("eol%d" % n, 4)
-            if c == 1:
+            c = eng.choose("eol%d" % n, 7)
+            if c == 6:
+                cur += "   "  # trailing blanks
+            elif c == 1:
                 cur += "  -- trailing"
             elif c == 2:
                 after = ["  -- own line"]
             elif c == 3:
                 cur += " -- trailing"
                 after = ["-- own line 1", "    -- own line 2"]
+            elif c == 4:
+                after = ["  -- pragma keep_this"]  # a comment of vendor-pragma shape (classified as pragma.single)
+            elif c == 5:
+                after = ["  /* delimited */"]
         out.append(cur)
         out.extend(after)
     return out
@@ -1044,7 +1050,7 @@ def relayout(eng, p):
                 cur += tk
                 continue
             ngaps += 1
-            c = eng.choose("gap%d" % ngaps, 4)
+            c = eng.choose("gap%d" % ngaps, 6)
             if c == 0:
                 cur += tk
             elif c == 1:
@@ -1053,16 +1059,30 @@ def relayout(eng, p):
             elif c == 2:
                 out.append(cur + " -- relayout")
                 cur = "    "
+            elif c == 4:
+                out.append(cur)
+                out.append("  -- synopsys keep_this")
+                cur = "    "
+            elif c == 5:
+                out.append(cur)
+                out.append("  /* c */")
+                cur = "    "
             else:
                 cur += tk + "  \t"
         if not comment_started and ngaps < maxgaps:
             ngaps += 1
-            c = eng.choose("eol%d" % ngaps, 3)
+            c = eng.choose("eol%d" % ngaps, 5)
             if c == 1:
                 cur += "  -- trailing"
             elif c == 2:
                 out.append(cur)
                 cur = "  -- own line"
+            elif c == 3:
+                out.append(cur)
+                cur = "  -- pragma keep_this"
+            elif c == 4:
+                out.append(cur)
+                cur = "  /**/"
         out.append(cur)
     clauses = []
     try:
@@ -1077,7 +1097,7 @@ def relayout(eng, p):
 
 def relayout_describe(values, p):
     return {"fixture": p["fixture"], "window": p["window"], "choices": {k: v for k, v in values.items() if k.startswith(("gap", "eol"))},
-            "legend": "gap: 0 keep, 1 line break, 2 comment + line break, 3 extra blanks/tab; eol: 0 keep, 1 trailing comment, 2 comment line"}
+            "legend": "gap: 0 keep, 1 line break, 2 comment + line break, 3 extra blanks/tab, 4 line break + pragma-shaped comment line, 5 line break + delimited comment line; eol: 0 keep, 1 trailing comment, 2 comment line, 3 pragma-shaped comment line, 4 empty delimited comment"}
 
 
 def make_L05b():
@@ -1106,7 +1126,7 @@ def make_L05b():
                 if not cl:
                     continue
                 lo = rnd.choice(cl)
-                out.append({"fixture": f, "window": [lo, lo + 1], "gaps": 5, "_limits": {"shard_paths": 3000}})
+                out.append({"fixture": f, "window": [lo, lo + 1], "gaps": 4, "_limits": {"shard_paths": 8000}})
             return out
 
         def run(self, eng, p):
